@@ -272,6 +272,9 @@ func metaRowsEqual(a, b metaRows) (bool, string) {
 	return true, ""
 }
 
+// metaNextDefacs, when set, is the default access requested for the next group created by metaSetup.
+var metaNextDefacs map[string]any
+
 // metaSetup creates the topic and actors.
 func metaSetup(w *vfWorld, r *vfkit.R, focus, kind string) *metaScn {
 	sc := &metaScn{w: w, r: r, focus: focus, kind: kind, offeredO: map[types.Uid]bool{}, maxSubs: globals.maxSubscriberCount}
@@ -283,7 +286,11 @@ func metaSetup(w *vfWorld, r *vfkit.R, focus, kind string) *metaScn {
 	}
 	if kind == "grp" {
 		o := mk("owner", auth.LevelAuth)
-		name, f := o.c.newGroup(false, map[string]any{"public": map[string]any{"fn": "t"}, "private": map[string]any{"note": "own"}})
+		desc := map[string]any{"public": map[string]any{"fn": "t"}, "private": map[string]any{"note": "own"}}
+		if metaNextDefacs != nil {
+			desc["defacs"] = metaNextDefacs
+		}
+		name, f := o.c.newGroup(false, desc)
 		if f == nil || f.code() != 200 {
 			r.Inconclusive("meta setup: create failed")
 			return nil
